@@ -127,4 +127,105 @@ def vars_to_models(pid):
 
 def add_obligations(pack, tier, pid='C01'):
     pack.trust('np.add.at(a, idx, v) adds v[k] to a[idx[k]] for every k (duplicates accumulate); np.put(a, idx, v) stores')
-    run_contracts(pack, [(e_to_dae(pid),), (fg_to_dae(pid),), (vars_to_models(pid),)])
+    run_contracts(pack, [(e_to_dae(pid),), (fg_to_dae(pid),), (vars_to_models(pid),), (store_adder_setter(pid),)])
+
+
+def store_adder_setter(pid):
+    """System.store_adder_setter: for every model with devices, each variable of its v_getters / v_adders / e_adders / v_setters /
+    e_setters is appended exactly once to the system list of the same role (getters / adders / setters) under the array code the
+    VARIABLE itself declares for that role (v_code for values, e_code for equations); each anti-windup limiter is appended to
+    antiwindups.  The lists are cleared first and the model cache is refreshed before it is read."""
+    from pyvc.symval import Mark, Coll
+    EM = 'models.$e'
+    ROLES = [('v_getters', '_getters', 'v_code'), ('v_adders', '_adders', 'v_code'), ('e_adders', '_adders', 'e_code'),
+             ('v_setters', '_setters', 'v_code'), ('e_setters', '_setters', 'e_code')]
+
+    def getitem(ex, st, args, kw, node):
+        base, sl = args
+        if isinstance(base, Mark) and base.kind == 'registry':
+            code = ex.ev(sl, st)
+            return Mark('bucket', base.data[0], code.term if isinstance(code, Opaque) else code)
+        return NotImplemented
+
+    def append(ex, st, args, kw, node):
+        base, item = args[0], args[1]
+        if isinstance(base, Mark) and base.kind == 'bucket':
+            ex.oblige(st, 'pre@call:append:the-model-cache-was-refreshed-before-its-lists-are-read', z3.BoolVal(bool(st.ghost.get('refreshed'))), {})
+            st.ghost['appended'] = st.ghost['appended'] + [(base.data[0], base.data[1], getattr(item, 'path', None))]
+            return None
+        if isinstance(base, Mark) and base.kind == 'antiwindups':
+            st.ghost['appended'] = st.ghost['appended'] + [('antiwindups', None, getattr(item, 'path', None))]
+            return None
+        return NotImplemented
+
+    def reset(v):
+        v.st.ghost['appended'] = []
+        v.st.ghost['in_iter'] = True
+        return True
+
+    def once(src, dest, code):
+        path = EM + '.cache.' + src + '.$e'
+
+        def f(v):
+            if not v.st.ghost.get('in_iter'):
+                return True
+            ap = v.st.ghost['appended']
+            if len(ap) != 1 or ap[0][0] != dest or ap[0][2] != path:
+                return False
+            want = v.st.load(path + '.' + code).term
+            return ap[0][1] == want if z3.is_expr(ap[0][1]) else z3.BoolVal(False)
+        return f
+
+    def aw(v):
+        if not v.st.ghost.get('in_iter'):
+            return True
+        ap = v.st.ghost['appended']
+        isaw = v.st.ghost['isaw']
+        one = len(ap) == 1 and ap[0][0] == 'antiwindups' and ap[0][2] == EM + '.discrete.$e'
+        return z3.If(isaw, z3.BoolVal(bool(one)), z3.BoolVal(len(ap) == 0))
+
+    def isinstance_aw(ex, st, args, kw, node):
+        b = fresh('is_antiwindup', z3.BoolSort())
+        st.ghost['isaw'] = b
+        return b
+
+    def rec(tag):
+        def h(ex, st, args, kw, node):
+            st.ghost['order'] = st.ghost['order'] + [tag]
+            if tag == 'refresh':
+                st.ghost['refreshed'] = True
+            return None
+        return h
+
+    def outer_reset(v):
+        v.st.ghost['refreshed'] = False
+        return True
+    sch = {'models': TColl(), EM + '.n': TInt(), EM + '.discrete': TColl()}
+    for src, dest, code in ROLES:
+        sch[EM + '.cache.' + src] = TColl()
+        sch[EM + '.cache.' + src + '.$e.v_code'] = TStr()
+        sch[EM + '.cache.' + src + '.$e.e_code'] = TStr()
+    loops = {0: Loop(inv=[], assume=[('reset', outer_reset)], frame=['$mdl', '$var', '$item', EM + '.*', 'ghost:isaw'])}
+    for k, (src, dest, code) in enumerate(ROLES):
+        loops[k + 1] = Loop(inv=[('%s:appended-once-to-%s[its-own-%s]' % (src, dest, code), once(src, dest, code))], assume=[('reset', reset)],
+                            frame=['$var', EM + '.cache.' + src + '.$e.*'])
+    loops[6] = Loop(inv=[('anti-windup-limiters-and-only-they-are-appended-to-antiwindups', aw)], assume=[('reset', reset)],
+                    frame=['$item', EM + '.discrete.$e.*', 'ghost:isaw'])
+
+    def post(old, new, res):
+        o = new.st.ghost['order']
+        return z3.BoolVal(o[:1] == ['clear'])
+    c = Contract(FS, 'System.store_adder_setter', pid=pid, params={'self': TObj(), 'models': TColl()}, schema=sch,
+                 ghost_init={'appended': [], 'order': [], 'isaw': False, 'refreshed': False},
+                 calls={'self._clear_adder_setter': rec('clear'), EM + '.cache.refresh': rec('refresh'), '__getitem__': getitem, '<value>.append': append,
+                        'isinstance:AntiWindup': isinstance_aw},
+                 globals_={'AntiWindup': Func('AntiWindup')},
+                 loops=loops, ensures=[('lists-cleared-first', post)], modifies=[])
+    c.properties = {'self._getters': lambda ex, st: Mark('registry', '_getters'), 'self._adders': lambda ex, st: Mark('registry', '_adders'),
+                    'self._setters': lambda ex, st: Mark('registry', '_setters'), 'self.antiwindups': lambda ex, st: Mark('antiwindups')}
+    c.merge = False
+
+    def pre_state(st):
+        st.ghost.pop('in_iter', None)
+    c.pre_state = pre_state
+    return c
